@@ -41,11 +41,18 @@ def dest_of(option_strings, dest_kw):
 def _declarations(prog):
     """All add_argument(...) calls that build the parser."""
     decls = []
-    sites = [('options', 'parse_options'),
-             ('mutators', 'collect_mutator_options')]
+    # every function of the option-building modules may contribute (the
+    # parser construction is sometimes split into helpers)
+    sites = []
+    for modname in ('options', 'mutators'):
+        m_ = prog.mod(modname)
+        for q in m_.funcs:
+            if '<locals>' not in q:
+                sites.append((modname, q))
     for m in prog.pkg_modules():
         if m.name.startswith('mutators_') and 'get_mutator_options' in m.funcs:
             sites.append((m.name, 'get_mutator_options'))
+    prog.mod('options').func('parse_options')
     for modname, fname in sites:
         m = prog.mod(modname)
         f = m.func(fname)
